@@ -28,7 +28,7 @@ ASSUMPTIONS = [
     "commands no ordering rule mentions are not ranked; ties inside one rank are not judged",
     "metamorphic relation is evaluated only when the reduced patch's commands are a sub-multiset of the full patch's commands (otherwise the deleted row was not unrelated)",
 ]
-FLOORS = {"quick": {"patches_ranked": 1500, "ranked_pairs": 3000, "sort_calls": 3000, "configs_ordered": 1500, "metamorphic_pairs": 150, "several_global_rule_cases": 300, "echoed_family_cases": 300, "unordered_blocks_compared": 500, "commented_patches": 300, "commented_commands": 600, "scoped_rule_cases": 300, "ordering_lines_with_tab_before_params": 300, "mirrored_pairs_checked": 150, "cases_with_a_global_block_rule_that_has_nested_rules": 150},
+FLOORS = {"quick": {"patches_ranked": 1500, "ranked_pairs": 3000, "sort_calls": 3000, "configs_ordered": 1500, "metamorphic_pairs": 150, "several_global_rule_cases": 300, "echoed_family_cases": 300, "unordered_blocks_compared": 500, "commented_patches": 300, "commented_commands": 600, "scoped_rule_cases": 300, "ordering_lines_with_tab_before_params": 300, "mirrored_pairs_checked": 150, "cases_with_a_global_block_rule_that_has_nested_rules": 150, "ordering_rules_with_an_inline_letter_case_marker": 1000},
           "thorough": {"patches_ranked": 60000, "ranked_pairs": 100000, "sort_calls": 100000, "configs_ordered": 60000, "metamorphic_pairs": 300, "several_global_rule_cases": 10000, "echoed_family_cases": 10000, "unordered_blocks_compared": 15000, "commented_patches": 10000, "commented_commands": 20000, "scoped_rule_cases": 10000}}
 VENDORS = c01.BLOCK_VENDORS
 KNOWN_ZERO = "C08/first-ordering-rule-has-rank-zero"
@@ -224,7 +224,7 @@ def make_case(seed, many_globals=False, echo=False, scoped=False, gblock=False):
     return vname, rules, order, old, new
 
 
-def check_case(seed, acc, many_globals=False, echo=False, scoped=False, tabs=False, gblock=False):
+def check_case(seed, acc, many_globals=False, echo=False, scoped=False, tabs=False, gblock=False, icase=False):
     from annet.api import _diff_and_patch
     from annet.annlib.patching import Orderer
     from annet.annlib.rbparser.ordering import compile_ordering_text
@@ -251,7 +251,33 @@ def check_case(seed, acc, many_globals=False, echo=False, scoped=False, tabs=Fal
             lines.append(ln)
         otext = "\n".join(lines)
         acc.count("ordering_lines_with_tab_before_params", sum(1 for ln in lines if "\t%" in ln))
-    w = {"seed": seed, "many_globals": many_globals, "echo": echo, "scoped": scoped, "tabs": tabs, "gblock": gblock, "vendor": vname, "rulebook": rtext, "ordering": otext, "old": plain(old), "new": plain(new)}
+    if icase:
+        # ordering rules that say "letter case does not matter" in the text itself: `(?i)` in front of a rule spelled in capitals, or inside
+        # the expression of a `*/.../` word; the commands keep their lower-case spelling, so every match (direct or through the negated
+        # form) needs the marker to be honoured
+        irng = random.Random(seed ^ 0x1CA8)
+        lines, n_, respelled = [], 0, {}
+        for ln in otext.split("\n"):
+            body, sep, params = ln.partition(" %")
+            ind = body[:len(body) - len(body.lstrip())]
+            ws = body.split()
+            if tuple(ws) in respelled:       # a line repeated in the text stays ONE rule: the same spelling everywhere
+                ws = respelled[tuple(ws)]
+            elif ws and ws[0] != prefix and irng.random() < 0.6:
+                ws0 = tuple(ws)
+                if "*" in ws and irng.random() < 0.4:
+                    ws[ws.index("*")] = "*/(?i)[A-Z]\\S*/"
+                else:
+                    ws = [w_.upper() if re.fullmatch(r"[a-z0-9]+", w_) else w_ for w_ in ws]
+                    ws[0] = "(?i)" + ws[0]
+                respelled[ws0] = ws
+                n_ += 1
+            else:
+                respelled[tuple(ws)] = ws
+            lines.append(ind + " ".join(ws) + sep + params)
+        otext = "\n".join(lines)
+        acc.count("ordering_rules_with_an_inline_letter_case_marker", n_)
+    w = {"seed": seed, "many_globals": many_globals, "echo": echo, "scoped": scoped, "tabs": tabs, "gblock": gblock, "icase": icase, "vendor": vname, "rulebook": rtext, "ordering": otext, "old": plain(old), "new": plain(new)}
     try:
         rb = c01.compile_rb(rtext, vname)
         rb["ordering"] = compile_ordering_text(otext, vname)
@@ -548,7 +574,7 @@ def run_shard(spec, acc):
         elif w.get("meta"):
             run_meta({"tier": "thorough", "shard": 0, "nshards": 1, "only": w.get("sample")}, acc)
         else:
-            check_case(w["seed"], acc, many_globals=bool(w.get("many_globals")), echo=bool(w.get("echo")), scoped=bool(w.get("scoped")), tabs=bool(w.get("tabs")), gblock=bool(w.get("gblock")))
+            check_case(w["seed"], acc, many_globals=bool(w.get("many_globals")), echo=bool(w.get("echo")), scoped=bool(w.get("scoped")), tabs=bool(w.get("tabs")), gblock=bool(w.get("gblock")), icase=bool(w.get("icase")))
         return
     if spec["mode"] == "meta":
         return run_meta(spec, acc)
@@ -571,3 +597,5 @@ def run_shard(spec, acc):
             check_case(rng.randrange(1 << 48), acc, tabs=True, scoped=(j % 10 == 1))
         if j % 5 == 4:
             check_case(rng.randrange(1 << 48), acc, gblock=True)
+        if j % 5 == 2:
+            check_case(rng.randrange(1 << 48), acc, icase=True, many_globals=(j % 10 == 2))
